@@ -16,7 +16,7 @@ RULE = (
     "Hypothesis draws AmpGen option texts from an AST: one EventType (mothers D0/D+/B0, 3-4 final-state particles incl. "
     "repeats), 1-6 full decay lines of the mother nested to depth 3 over a pinned pool of 30 resonance names, daughters "
     "written bare with 0-3 separately given alternative lines per name (which may again contain bare names), [S|P|D], "
-    "[lineshape] and [D;lineshape] tags, couplings in every numeric literal form with fix flags 0/2/3, 0-8 parameter lines "
+    "[lineshape] and [D;lineshape] tags, couplings in every numeric literal form with fix flags 0/2/3, 0-8 parameter lines (now and then the same name on several lines) "
     "and 0-5 constant lines (names with '::'), Output/nEvents options, single-component and 'a = b' lines (grammar kinds that are read and ignored), the coherent-sum option absent/0/1, comments, blank "
     "lines, CRLF, items in any order. Oracle: reference expansion over the AST (cartesian product, file order, left-most "
     "slowest); str(line), tags, coupling (|.|*exp(i phase), or re+i*im under the cartesian option) within 1e-12 at every node, "
@@ -89,7 +89,7 @@ def c17_case(draw):
         bare = [b for b in nxt_bare if b not in done]
         level += 1
     # bare names of the last level that are left without lines stay bare (no substitution)
-    for n in draw(st.lists(st.sampled_from(PARAM_NAMES), max_size=8, unique=True)):
+    for n in draw(st.lists(st.sampled_from(PARAM_NAMES), max_size=8, unique=draw(st.sampled_from((True, True, False))))):
         items.append({"k": "var", "n": n, "flag": str(draw(st.sampled_from((0, 2, 3)))), "v": draw(N.num_literal()), "e": draw(N.num_literal(nonneg=True))})
     for n in draw(st.lists(st.sampled_from(CONST_NAMES), max_size=5, unique=True)):
         items.append({"k": "const", "n": n, "v": draw(N.num_literal())})
